@@ -14,17 +14,28 @@ PANIC_ALLOW = [
     {"path": "json_syntax::parse::decode_utf8", "detail": "slice API (core::slice::<impl [T]>::split_at)",
      "reason": "`content.split_at(e.valid_up_to())` with `e` the error of `from_utf8(content)` of the same slice: valid_up_to() <= content.len() by the contract of "
                "Utf8Error (rule C01.entry/source checks exactly this data flow: prefix(content, valid_up_to(utf8error-of(content))))"},
-    {"path": "json_syntax::object::index_map::make_hasher::{closure#0}", "detail": "BoundsCheck",
-     "reason": "`entries[indexes.rep]` in the re-hash callback (reached through hashbrown's `&dyn Fn`): every representative stored in the table is a position "
+    {"path": None, "callback_on": "json_syntax::object::index_map::Indexes", "detail": "BoundsCheck",
+     "reason": "`entries[indexes.rep]` in the hash table's callbacks (closures of the index-map module taking `&Indexes`: the re-hash callback reached through hashbrown's `&dyn Fn`, the probe's equality callback): every representative stored in the table is a position "
                "of the entries slice passed to the IndexMap operation — the precondition that rule C06.model checks at every IndexMap::get / insert / remove "
                "call while interpreting every Object operation on all small objects (objmodel.World.precond)"},
-    {"path": "json_syntax::object::index_map::equivalent_key::{closure#0}", "detail": "BoundsCheck",
-     "reason": "`entries[indexes.rep]` in the probe's equality callback: same precondition as the re-hash callback (rule C06.model, objmodel.World.precond)"},
 ]
 
 
-def allowed(path, detail):
+def allowed(path, detail, P=None, inst=None):
     for a in PANIC_ALLOW:
-        if a["path"] == path and a["detail"] in detail:
+        if a["path"] is not None and a["path"] == path and a["detail"] in detail:
+            return a
+        if a["path"] is None and P is not None and inst is not None and a["detail"] in detail and _is_callback_on(P, inst, a["callback_on"]):
             return a
     return None
+
+
+def _is_callback_on(P, inst, adt):
+    """A closure defined in the module of `adt` whose only argument is `&adt` (identified by type, not by the name of the
+    function that builds it)."""
+    if inst.get("def_kind") != "Closure" or not inst["path"].startswith(adt.rsplit("::", 1)[0] + "::"):
+        return False
+    if inst.get("arg_count") != 2:
+        return False
+    t = P.types[inst["locals"][2]]
+    return t["k"] == "ref" and P.types[t["to"]].get("name") == adt
